@@ -715,7 +715,8 @@ TRUSTED = [
 ]
 ASSUME = ["variables are registered (ensure_variable*) before a literal over them is requested, as the API documents (run_ok)",
           "real deadlines are arbitrary Boolean answer sequences of the deadline closure",
-          "unbounded canonicity is NOT proved (only the three-variable bounded theorem and the run-time canonicity check)"]
+          "general canonicity of Decision handles is NOT proved (three-variable bounded theorem, equal-nodes / constants / literals "
+          "theorems, and the run-time canonicity check on every generated handle)"]
 
 
 def audit_canon(ctx):
@@ -787,9 +788,8 @@ def run(ctx):
     evaluate_interrupts(ctx, binpath, icases, "interrupt", 40 if ctx.thorough else 12)
     ctx.finish(level="proof", rule=PROP_RULE, trusted_base=TRUSTED, assumptions=ASSUME,
                extra={"partial": ["unbounded canonicity (equal functions get equal handles for every number of variables) is not proved; "
-                                  "C07_canonical_3 is the bounded theorem, the check tests canonicity on every generated handle",
-                                  "wmc / gradient for exclusive-group weights (neg = 1) are outside C07_wmc (normalised weights only) and "
-                                  "are compared numerically with the truth-table sums"]})
+                                  "C07_canonical_3 is the bounded theorem, C07_unique_nodes / C07_canonical_simple_partial cover equal nodes, "
+                                  "constants and literals for every number of variables; the check tests canonicity on every generated handle"]})
 
 
 def replay(ctx):
